@@ -1171,6 +1171,15 @@ def _bloch(a):
     if a.get("zero"):
         if np.max(np.abs(be)) > 1e-12 or np.max(np.abs(np.abs(al) - 1)) > 1e-10:
             bad.append("zero pulse is not the identity rotation up to phase: max|beta|=%g" % float(np.max(np.abs(be))))
+    if sim == "abrm" and a.get("balanced"):
+        # balanced = the unbalanced rotation followed by the rewinder (free precession = abrm of a zero pulse at -x/2)
+        au, bu = rf.sim.abrm(pulse, x1, balanced=False)
+        az, bz_ = rf.sim.abrm(np.zeros(3), -x1 / 2)
+        ac = az * au - np.conj(bz_) * bu
+        bc = bz_ * au + np.conj(az) * bu
+        err = max(np.max(np.abs(ac - al)), np.max(np.abs(bc - be)))
+        if err > 1e-6:
+            bad.append("balanced abrm differs from the pulse rotation composed with the rewinder rotation by %g" % err)
     if a.get("compose") and sim in ("abrm_nd", "abrm_hp", "blochsim"):
         h = Nt // 2
         a1, b1_ = run(pulse[:h], g[:h])
